@@ -4,17 +4,20 @@ set -e
 V=$(cd "$(dirname "$0")" && pwd)
 cd "$V"
 mkdir -p .build/harness .build/locks evidence replays
-# 1. library from /repo's working tree (out of tree, guard on)
+# 1. library from /repo's working tree (out of tree, guard on): release build and sanitizer build
 python3 - <<'P'
 import sys; sys.path.insert(0, '.')
 import vlib
 ok, out = vlib.build_repo()
-print(out[-600:]); sys.exit(0 if ok else 1)
+print(out[-400:])
+if not ok: sys.exit(1)
+ok, out = vlib.build_repo(asan=True)
+print(out[-400:]); sys.exit(0 if ok else 1)
 P
 # 2. Lean: whole library (all models, proofs, property theorems) + every driver that exists
 cd lean
 lake build Qx
-for f in Driver/C*.lean; do
+for f in Driver/*.lean; do
   [ -f "$f" ] || continue
   n=$(basename "$f" .lean | tr 'A-Z' 'a-z')
   lake build qxdriver_$n
